@@ -21,7 +21,7 @@ for p in props:
         'replay_cmd_template': f'./check {pid} --replay {{path}}',
         'engine': 'mc',
         'level_claimed': {'category': m.LEVEL, 'text': m.LEVEL_TEXT, 'design_ref': f'DESIGN.md section 2, {pid}'},
-        'level_note': m.LEVEL_NOTE,
+        'level_note': m.LEVEL_NOTE + (' Additions after the seeded-change waves: ' + '; '.join(getattr(m, 'EXTENSIONS', [])) + '.' if getattr(m, 'EXTENSIONS', None) else ''),
         'technique': m.TECHNIQUE,
     }
     checks.append(c)
